@@ -62,7 +62,7 @@ struct _table_arc16 table_arc16[] =
   { "lsr_s",  0x7819, 0xf81f, 3, { OP_B,    OP_B,    OP_C    } },
   { "lsr_s",  0xb820, 0xf8e0, 3, { OP_B,    OP_B,    OP_U5   } },
   { "mov_s",  0x7008, 0xf818, 2, { OP_B,    OP_H,    OP_NONE } },
-  { "mov_s",  0x7018, 0xf818, 2, { OP_H,    OP_H,    OP_NONE } },
+  { "mov_s",  0x7018, 0xf818, 2, { OP_H,    OP_B,    OP_NONE } },
   { "mov_s",  0xd800, 0xf800, 2, { OP_B,    OP_U8,   OP_NONE } },
   { "mov_s",  0x70cf, 0xf8ff, 2, { OP_B,    OP_LIMM, OP_NONE } },
   { "neg_s",  0x7813, 0xf81f, 2, { OP_B,    OP_C,    OP_NONE } },
